@@ -25,7 +25,7 @@ from typing import Any, Optional
 import z3
 
 from .pyvals import (NONE, Exc, IntSeq, NoneVal, PAbs, PyCache, PyCallable, PyConst, PyGen, PyKey, PyList, PyMap, PyObj,
-                     PyStrSet, PyTuple, StrSeq, Tok, TokSeq, Val, ValSeq, clone, fresh, is_bool, is_int, is_seq, is_str,
+                     PyOpt, PyStrSet, PyTuple, StrSeq, Tok, TokSeq, Val, ValSeq, clone, fresh, is_bool, is_int, is_seq, is_str,
                      is_tok, is_val, is_z3, tok_fields, truthy)
 
 
@@ -132,6 +132,13 @@ def lift(v):
 def eq(a, b):
     """Python == as a z3 Bool"""
     a, b = lift(a), lift(b)
+    if isinstance(a, PyOpt) or isinstance(b, PyOpt):
+        o, x = (a, b) if isinstance(a, PyOpt) else (b, a)
+        if x is NONE:
+            return o.isnone
+        if isinstance(x, PyOpt):
+            return z3.Or(z3.And(o.isnone, x.isnone), z3.And(z3.Not(o.isnone), z3.Not(x.isnone), eq(o.some, x.some)))
+        return z3.And(z3.Not(o.isnone), eq(o.some, x))
     if a is NONE or b is NONE:
         if a is NONE and b is NONE:
             return z3.BoolVal(True)
